@@ -75,12 +75,11 @@ def run(tier, work):
     rnd = random.Random(vlib.SEED)
     hs, _ = vlib.generate(SPEC, "TelnetGen", "GenQuick.cfg" if tier == "quick" else "GenThorough.cfg", work, "p2a")
     hs.sort(key=lambda h: json.dumps(h, sort_keys=True))
-    if tier == "quick":
-        rnd.shuffle(hs)
-        hs = hs[:2500]
+    rnd.shuffle(hs)
+    hs = hs[:2500] if tier == "quick" else hs[:12000]       # (the thorough enumeration is far larger than a run can replay)
     for h in hs:
         h.update(cls="strict", port="telnet")
-    nsim = 600 if tier == "quick" else 20000
+    nsim = 600 if tier == "quick" else 1500
     sims, _ = vlib.generate(SPEC, "TelnetGen", "GenSim.cfg", work, "p2b", workers=4, simulate="num=%d" % nsim,
                             extra=["-depth", "12", "-seed", str(vlib.SEED)], timeout=900)
     for h in sims:
@@ -91,9 +90,8 @@ def run(tier, work):
         h.update(cls="robust" if any(t in ROBUST for t in h["toks"]) else "strict", port="telnet")
     asc, _ = vlib.generate(SPEC, "TelnetGen", "GenAscii.cfg", work, "p2d")
     asc.sort(key=lambda h: json.dumps(h, sort_keys=True))
-    if tier == "quick":
-        rnd.shuffle(asc)
-        asc = asc[:600]
+    rnd.shuffle(asc)
+    asc = asc[:600] if tier == "quick" else asc[:3000]
     for h in asc:
         h.update(cls="strict", port="ascii")
     # bursts: many short lines sent faster than one command per cycle (hand-listed family, strict)
